@@ -254,7 +254,19 @@ func Invoke(c Call, a *Args) (res Result) {
 		case pt.Kind() == reflect.Float64:
 			switch short {
 			case "Densify":
-				v = reflect.ValueOf(0.5 + float64(a.nextInt()%4))
+				// relative to the receiver's extent: an absolute distance on a geometry millions of units wide
+				// asks for millions of points (a slow, memory-hungry call, not a defect)
+				d := 0.5 + float64(a.nextInt()%4)
+				if c.Recv.IsValid() {
+					if em := c.Recv.MethodByName("Envelope"); em.IsValid() && em.Type().NumIn() == 0 {
+						if env, ok := em.Call(nil)[0].Interface().(geom.Envelope); ok {
+							if ext := env.Width() + env.Height(); ext > 16 {
+								d *= ext / 16
+							}
+						}
+					}
+				}
+				v = reflect.ValueOf(d)
 			case "Simplify":
 				v = reflect.ValueOf(float64(a.nextInt()%4) / 2)
 			case "InterpolatePoint":
